@@ -28,7 +28,7 @@ CLAIMED = {
             "re-evaluation and contact-refresh pairs in the engine. Also: an Apply that empties a list and rebuilds it confirms every change report by a before/after comparison (reset-and-rebuild); the Contact methods that take a URN compare by Identity() on both sides everywhere and ContactURN.Equal compares the complete raw URN. "
             "Round 3: the contact_refreshed guard compares with the current contact of the session being updated; pointer-equality helpers used as Apply guards answer true for (nil, nil). "
             "Round 6: inside a list type of package flows elements are identified by UUID everywhere, never by pointer (sibling agreement). "
-            "Does not decide that replaying events reproduces "
+            "Round 7: a Set… method of Contact that reports nothing stores its argument on every path. Does not decide that replaying events reproduces "
             "the contact value, nor value-level idempotence beyond the reset-and-rebuild shape.",
             "who-may-call + path-sensitive typestate dataflow over go/ssa (ESP-style), value-provenance comparison",
             "DESIGN.md §4 C03"),
@@ -44,7 +44,7 @@ CLAIMED = {
             "Round 4: a session is only resumed at a node that waits (imported from C10 R3). "
             "Round 5: every path through the run context that ends at the contact's fields, computed from the Context map literals, is a row of inspect.fieldRefPaths (found and fixed F31). "
             "Round 6: the extraction-chain rule also covers the asset-reference walk (dependencies, walk, extractAssetReferences). "
-            "Does not relate inspection to actual executions.",
+            "Round 7: a by-name asset lookup in the actions takes a constant or an evaluated name, never the saved name of a reference. Does not relate inspection to actual executions.",
             "table agreement between sibling implementations (saves vs declares) via SSA provenance, struct-tag audit, control-dependence check",
             "DESIGN.md §4 C20"),
     "C04": ("Structural necessary conditions of totality of expression evaluation, decided over the SSA form of the six evaluation "
@@ -77,7 +77,7 @@ CLAIMED = {
             "Round 3: urnscheme is treated as an enumerating validator (constant, or under urns.IsValidScheme of the same value). "
             "Round 4: C11 R4 imported (every template rewritten, result kept); digit range tests start at '0' (lint). "
             "Round 6: where the legacy migration de-duplicates by a text-keyed map the key looked up, inserted and given to the created object is one value. "
-            "Does not decide that migrated definitions load (whether a required text value without an enumerating validator can be empty is not decided), graph preservation, idempotence as a value-level fact, or equivalence of rewritten templates.",
+            "Round 7: comparison functions handed to sort.Slice/SliceStable in the definition packages read both elements alike. Does not decide that migrated definitions load (whether a required text value without an enumerating validator can be empty is not decided), graph preservation, idempotence as a value-level fact, or equivalence of rewritten templates.",
             "registry/table agreement (AST constants), SSA shape check of migrate(), guard-dominance (control dependence) for nil/length/type tests, interprocedural nullable-map analysis",
             "DESIGN.md §4 C16"),
     "C01": ("Local steps of the session state-machine invariant, decided on the SSA/AST form of the engine: status alphabet and "
@@ -115,7 +115,7 @@ CLAIMED = {
             "without a timeout). Also: the resume limit fails the session (imported from C05 R3); every method invoked on a run's Flow() in engine and runs is under a nil test of the same expression or listed as execution-only. "
             "Round 3: the node PathLocation returns is dereferenced, directly or by a callee, only under a test of the accompanying error or of the node. "
             "Round 4: the nil outcome of every Router()/Wait() test in tryToResume fails the session on every path; a tolerated error is not merged into a later returning error test. "
-            "Does not compare session JSON before/after as an observed fact nor cover faults inside ReadSession.",
+            "Round 7: no function of flows/definition returns a flow together with a possibly non-nil error (tryToResume tells an unloadable flow by Flow() == nil). Does not compare session JSON before/after as an observed fact nor cover faults inside ReadSession.",
             "path enumeration with interprocedural root-sensitive write-effect summaries (go/ssa + CHA), guard dominance, finite-domain abstract interpretation of Accepts",
             "DESIGN.md §4 C10"),
     "C06": ("Structural necessary conditions of 'query-based group membership matches the contact': an interprocedural, "
@@ -127,10 +127,9 @@ CLAIMED = {
             "non-active-contact clauses of ReevaluateGroups/CheckQueryBasedMembership; every query group is re-checked, a matching "
             "group is added and a non-matching one removed; both call sites report changes and skip the event only when both lists "
             "are empty. Also: the evaluator's tables the group queries run through are obligations here too (imported from C15 R1 R2). "
-            "Does "
             "Round 4: the values of the contact handed to the evaluator (C15 R3: presence guards, fields only for field properties) are imported too. "
             "Round 5: both operands of a text comparison are normalised by the same calls (imported with C15 R1). "
-            "not decide that the evaluator's answer is right (C15) nor asset loading.",
+            "Round 7: the nodes of a parsed query are written only where they are allocated (the parsed query of a group is the same for every session and environment). Does not decide that the evaluator's answer is right (C15) nor asset loading.",
             "interprocedural dirty/clean dataflow over go/ssa with CHA dispatch and object-root sensitivity, guard dominance",
             "DESIGN.md §4 C06"),
     "C07": ("Structural necessary conditions of 'routers take the exit their definition prescribes', decided by value provenance on "
@@ -145,7 +144,7 @@ CLAIMED = {
             "Round 4: a candidate that fails the comparison does not end the search loop; a parentless location lookup is decided by the emptiness of the text naming the level above. "
             "Round 5: no slice or map is built and never read in the router packages (lint). "
             "Round 6: in SwitchRouter.Route the call of matchCase dominates the category decision (no operand skips the cases). "
-            "Does not decide what each test function matches.",
+            "Round 7: whether matchCase tests a case does not depend on the case's category or the router's default. Does not decide what each test function matches.",
             "SSA value-provenance and guard-dominance checks on the router functions",
             "DESIGN.md §4 C07"),
     "C09": ("Structural necessary conditions of race-free concurrent sessions over shared assets: the set of shared struct types "
@@ -173,7 +172,7 @@ CLAIMED = {
             "Round 3: a pointer field the read side restores only under a presence test is dereferenced by the marshal side only under a nil test. "
             "Round 4: the validate tag on an asset reference's UUID accepts whatever the asset's own definition accepts for that UUID type; the index obligations over the reader packages are imported from C05 R7. "
             "Round 6: a text field of persisted run state that the reader constrains (validate tag beyond required) is not fed run-time text, except behind a constant regexp whose language lies inside the constraint's (found and fixed F32). "
-            "Does not decide that a restored session behaves "
+            "Round 7: the MarshalJSON methods of the persisted types write whole lists (no re-slice of a receiver's list). Does not decide that a restored session behaves "
             "identically (value-level), nor that re-derived values equal the live ones.",
             "marshal/read field-coverage and envelope symmetry (sibling-table agreement over go/ssa field accesses), dominance",
             "DESIGN.md §4 C02"),
@@ -186,7 +185,7 @@ CLAIMED = {
             "display. Also: session.MergedEnvironment builds its wrapper on every call (or every writer of session.env resets the cache), so the policy in force is the session's current one. "
             "Round 3: environment.Equal is sensitive to the redaction policy. "
             "Round 4: every nameless return of Contact.Format is decided by the policy test and the redacting edge shows the id; no URN-tainted branch condition in anything the context methods of Contact/URNList/ContactURN reach (implicit flows). "
-            "Does not decide non-interference for values that enter the context as plain data.",
+            "Round 7: an environment rebuilt from another one copies its redaction policy. Does not decide non-interference for values that enter the context as plain data.",
             "intraprocedural API-aware taint analysis over go/ssa, guard (edge-dominance) checks",
             "DESIGN.md §4 C19"),
     "C18": ("Structural necessary conditions of the documented language fallback: getLanguages appends contact-allowed language, "
@@ -214,7 +213,7 @@ CLAIMED = {
             "Round 4: presence guards also in FieldValue.QueryValue; the contact's fields are consulted only for properties that are neither attributes nor URN schemes. "
             "Round 5: both operands of textComparison pass the same normalising calls. "
             "Round 6: the node whose children Simplify splices into the parent is the node whose operator it compared. "
-            "Does not decide date parsing of query values, tokenisation, or the comparison primitives themselves.",
+            "Round 7: the attribute type table is consulted only on the edge where the property type equals the attribute constant. Does not decide date parsing of query values, tokenisation, or the comparison primitives themselves.",
             "finite-domain abstract interpretation (path typestate engine with abstract transfer tables), sibling-table agreement",
             "DESIGN.md §4 C15"),
     "C14": ("Structural necessary conditions of contact-query round-tripping and injection freedom: every evaluation of a "
@@ -229,7 +228,7 @@ CLAIMED = {
             "Round 4: the string evaluator under R3 was made sound for unknown strings and joins of mixed element forms. "
             "Round 5: the arms that reject URN conditions under redaction exempt the same conditions (sibling agreement). "
             "Round 6: the node whose children Simplify splices into the parent is the node whose operator it compared (shared with C15 R5). "
-            "Does not decide structural identity of re-parsed "
+            "Round 7: the value of an explicit condition is what visiting the literal returned, with no call in between. Does not decide structural identity of re-parsed "
             "queries for all inputs.",
             "value provenance over go/ssa, regular-language (NFA->DFA) reasoning on the grammar's lexer rule, constant-pattern analysis, table agreement",
             "DESIGN.md §4 C14"),
@@ -244,7 +243,7 @@ CLAIMED = {
             "only behind the lower-cased allowed-top-level test, and gives a disallowed name back with its '@'; TextLiteral.String is strconv.Quote of the full native value and "
             "the reader strconv.Unquote. Also: raw template parameters (those that reach NewXScanner) are otherwise only trimmed, measured, compared or passed on, so literal text reaches a result only as the scanner's BODY token. "
             "Round 3: the input reader hands on every rune it reads; where a trimmed copy of a raw template is compared, that same copy is what is scanned. "
-            "Does not decide the whole-string round trip for all UTF-8.",
+            "Round 7: what VisitTextLiteral unquotes is the token's text as written (no call between GetText and strconv.Unquote). Does not decide the whole-string round trip for all UTF-8.",
             "finite-domain abstract interpretation of the scanner (path typestate engine over go/ssa), NFA->DFA reasoning on the grammar rule, provenance",
             "DESIGN.md §4 C12"),
     "C11": ("Structural necessary conditions of meaning-preserving print/re-parse: a four-way agreement table for the 13 operators "
@@ -257,7 +256,7 @@ CLAIMED = {
             "the rename guarded. Also: identifier text (Name, Lookup, Args) reaches the printed string only through formatting calls, the one listed normalisation (lower-casing a context reference) being backed by a who-may-write rule on Scope.get (XObject.Get and functions.Lookup, both shown to compare lower-cased names). "
             "Round 3: in the migrations refactor.Template is called unconditionally (no textual pre-filter before a case-insensitive rewrite). "
             "Round 4: Visit descends into a field only by invoking Visit on it; the caller of refactor.Template returns the rewritten text on every path; no multi-character cutset in the rewriting packages (lint). "
-            "Does not decide equality of evaluation results.",
+            "Round 7: what VisitTextLiteral unquotes is the token's text as written (no call between GetText and strconv.Unquote). Does not decide equality of evaluation results.",
             "sibling-table agreement across grammar text, AST doc tags and go/ssa provenance; shape checks of printers and refactor plumbing",
             "DESIGN.md §4 C11"),
     "C17": ("Structural necessary conditions of meaning-preserving migration, decided on symbolic string templates computed from go/ssa: "
@@ -287,7 +286,7 @@ CLAIMED = {
             "Round 4: the day/month/year validity check in envs uses the year the date is built from. "
             "Round 5: the upper-bound tests in front of NewTimeOfDay let 59 through for minutes and seconds. "
             "Round 6: no number takes a detour through float64 in the value packages; a century is added to a parsed year only under a test of the matched text's length. "
-            "Does not decide the library arithmetic, DST folds, "
+            "Round 7: where envs uses the value of one of its (found, value) parsers it uses the found flag too. Does not decide the library arithmetic, DST folds, "
             "second-granular UTC offsets or non-am/pm locales.",
             "writer/reader table agreement by constant evaluation of the source's own patterns and layouts; regular-language inclusion; finite-domain evaluation of an SSA fragment; go/ssa provenance",
             "DESIGN.md §4 C13"),
